@@ -231,7 +231,7 @@ Section ColumnsOK.
     - (* inv_dflt *)
       cbn [inv columns_spec dflt columns fst snd]. split; [intros j; rewrite coln_beyond by (simpl; lia); apply inv_dflt|].
       split; [apply (@inv_dflt rowsR _ _)|].
-      intros k is Hk. exfalso. exact (@consec_no_valid_dflt (owned (idx R)) _ _ _ O _ chk k Hk).
+      intros k is Hk. exfalso. exact (@consec_no_valid_dflt (owned (idx R)) _ _ _ _ O _ chk k Hk).
     - (* push_safe *)
       intros [cols rows] vs [cols' rows'] k (Hic & Hir & Hrows).
       cbn [fst snd inv valid dom columns_spec push columns] in *.
@@ -246,7 +246,7 @@ Section ColumnsOK.
       split; [|split; [|split]].
       + split; [exact Hic'|]. split; [exact Hir'|].
         intros j js Hj Hrj.
-        destruct (@consec_valid_push (owned (idx R)) _ _ _ O _ chk rows is rows' k Hir E2 j Hj) as [Hold| ->].
+        destruct (@consec_valid_push (owned (idx R)) _ _ _ _ O _ chk rows is rows' k Hir E2 j Hj) as [Hold| ->].
         * destruct (Hfr j Hold) as [_ Hrd]. rewrite Hrd in Hrj.
           apply (proj2 (@zip_read_frame js cols cols' (Hrows j js Hold Hrj) Hfc Hlc)).
         * rewrite Hnew in Hrj. inversion Hrj; subst js. split; [lia|exact Hvis].
@@ -270,7 +270,7 @@ Section ColumnsOK.
       intros [cols rows] (Hic & Hir & Hrows). cbn [fst snd inv sim columns_spec clear columns dflt] in *.
       destruct (@clear_ok rowsR _ _ rows Hir) as [Hci Hcs]. split.
       + split; [intros j; apply coln_map_clear; exact Hic|]. split; [exact Hci|].
-        intros k is Hk. exfalso. exact (@consec_no_valid_clear (owned (idx R)) _ _ _ O _ chk rows k Hk).
+        intros k is Hk. exfalso. exact (@consec_no_valid_clear (owned (idx R)) _ _ _ _ O _ chk rows k Hk).
       + split; [exact Hcs|]. intros j. rewrite (coln_beyond [] (j := j)) by (simpl; lia).
         apply coln_map_clear; exact Hic.
     - (* merge_inv *)
@@ -281,7 +281,7 @@ Section ColumnsOK.
       split.
       { apply (@merge_inv rowsR _ _). rewrite Forall_forall in *. intros y Hy. apply in_map_iff in Hy.
         destruct Hy as (x & <- & Hx). apply (Hl x Hx). }
-      intros k is Hk. exfalso. exact (@consec_no_valid_merge (owned (idx R)) _ _ _ O _ chk _ k Hk).
+      intros k is Hk. exfalso. exact (@consec_no_valid_merge (owned (idx R)) _ _ _ _ O _ chk _ k Hk).
     - intros [cols rows]. cbn [fst snd sim columns_spec]. split; [apply (@sim_refl rowsR _ _)|intros j; apply sim_refl].
     - intros [c r] [d q] [H3 H4]. cbn [fst snd sim columns_spec] in *. split; [apply (@sim_sym rowsR _ _); exact H3|intros j; apply sim_sym, H4].
     - intros [c r] [d q] [e p] [H3 H4] [H5 H6]. cbn [fst snd sim columns_spec] in *.
